@@ -59,6 +59,9 @@ fn add_case(cx: &mut Ctx, family: &str, w: &World, q: &Query, extra: serde_json:
     if q.query_wf.is_some() {
         st.count("query_weight_factor");
     }
+    if reopened_and_target_popped_first(w, q) {
+        st.count("reopened_and_target_popped_first");
+    }
     // non-trivial: a route of >= 2 edges, or a tree of >= 3 entries, or a specific error outcome
     if rl >= 2 || ts >= 3 || !(o.is_ok()) {
         st.mark_nontrivial(&format!("{}|{}", world_to_json(w), query_to_json(q)));
@@ -70,7 +73,7 @@ fn main() {
     silence_panics();
     let a = parse_args();
     if a.stream == "probe" {
-        for (name, w, q) in boundary_cases().into_iter().chain(absorption_cases()) {
+        for (name, w, q) in boundary_cases().into_iter().chain(absorption_cases()).chain(reopen_cases()) {
             let o = run_query_watchdog(&w, &q, WATCHDOG_MS);
             println!("{:40} {:?} {:?} {:?} s={} t={:?} :: {}", name, q.alg, q.dir, q.orient, q.source, q.target, show_outcome(&o, 0));
         }
@@ -101,11 +104,18 @@ fn main() {
     for (name, w, q) in absorption_cases() {
         add_case(&mut cx, &name, &w, &q, json!({}));
     }
+    for (name, w, q) in reopen_cases() {
+        add_case(&mut cx, &name, &w, &q, json!({}));
+    }
     // ---- random worlds ----
     let mut rng = Rng::new(a.seed);
     while cx.st.next_id() < a.n && cx.hangs < MAX_HANGS {
         let mut r = rng.fork();
-        let fam = if r.chance(3, 5) { CostFamily::TieFree } else { CostFamily::TieRich };
+        let fam = match r.below(10) {
+            0..=4 => CostFamily::TieFree,
+            5..=7 => CostFamily::TieRich,
+            _ => CostFamily::LongHaul,
+        };
         let (mut w, flags) = gen_world(&mut r, fam);
         // a few queries per world (the graph is the expensive part to vary, the query the cheap one)
         let k = 1 + r.below(3);
@@ -114,9 +124,15 @@ fn main() {
                 break;
             }
             let (q, hk) = gen_query(&mut r, &mut w);
+            // one query in seven is biased towards re-opening a vertex that already has a child (the world keeps the
+            // gadget for the following queries of the same world, which is harmless)
+            if r.chance(1, 7) && add_reopen_gadget(&mut r, &mut w, &q) {
+                cx.st.count("reopen_gadget_grafted");
+            }
             let family = match fam {
                 CostFamily::TieFree => "random_tie_free",
                 CostFamily::TieRich => "random_tie_rich",
+                CostFamily::LongHaul => "random_long_haul",
             };
             for f in &flags {
                 cx.st.count(&format!("forced:{}", f));
